@@ -206,19 +206,27 @@ func (g *Gen) plausible() string {
 	var sb strings.Builder
 	nm := 1 + g.pick(3)
 	for m := 0; m < nm; m++ {
-		if g.pick(40) == 0 {
+		fn := g.pick(256)
+		switch g.pick(40) {
+		case 0:
 			fmt.Fprintf(&sb, "S%dF%d", 128+g.pick(900), 256+g.pick(900))
-		} else {
+		case 1, 2:
 			fmt.Fprintf(&sb, "S%dF%d", g.pick(130), g.pick(258))
+		default:
+			fmt.Fprintf(&sb, "S%dF%d", g.pick(128), fn)
 		}
-		sb.WriteString([]string{"", " W", " [W]", " w"}[g.pick(4)])
+		w := []string{"", " W", " [W]", " w"}[g.pick(4)]
+		if fn%2 == 0 && g.pick(8) != 0 && (w == " W" || w == " w") {
+			w = " [W]" // W on an even function is an error; keep that rare
+		}
+		sb.WriteString(w)
 		sb.WriteString([]string{" H->E", " H<-E", " H<->E", "", " h<->e"}[g.pick(5)])
 		sb.WriteString([]string{"", " Name", " n.1", " <"}[g.pick(4)])
 		sb.WriteString([]string{"\n", " ", "\r\n", " // c\n"}[g.pick(4)])
 		if g.pick(6) != 0 {
 			sb.WriteString(g.plausibleItem(2))
 		}
-		sb.WriteString([]string{".", "\n.", " .\n", ""}[g.pick(4)])
+		sb.WriteString([]string{".", "\n.", " .\n", ".", " .", ""}[g.pick(6)])
 		sb.WriteString([]string{"", "\n", " ", "// end\n"}[g.pick(4)])
 	}
 	return sb.String()
@@ -282,18 +290,20 @@ func (g *Gen) plausibleItem(depth int) string {
 		}
 	default:
 		for i := 0; i < n; i++ {
-			switch g.pick(10) {
-			case 0:
+			switch g.pick(20) {
+			case 0, 1:
 				vals = append(vals, g.newVar())
-			case 1:
+			case 2:
 				vals = append(vals, []string{"1.5", "T", `"s"`, "1e2"}[g.pick(4)])
-			default:
+			case 3, 4, 5:
 				vals = append(vals, intLits[g.pick(len(intLits))])
+			default: // fits every width, signed or not
+				vals = append(vals, []string{"0", "1", "7", "0x7F", "0b101", "0o17", "100", "0X10", "127", "00"}[g.pick(10)])
 			}
 		}
 	}
 	size := ""
-	switch g.pick(8) {
+	switch g.pick(16) {
 	case 0:
 		size = fmt.Sprintf("[%d]", n)
 	case 1:
@@ -335,15 +345,41 @@ func driverSoup(c *Ctx) {
 		}
 		g := c.gen(i)
 		var text string
-		switch g.pick(3) {
+		how := "soup"
+		switch g.pick(4) {
 		case 0:
 			text = g.soup(1 + g.pick(14))
+		case 1:
+			// a plausible text with a few random byte-level mutations (flip, insert, delete, duplicate a span)
+			how = "mutated"
+			b := []byte(g.plausible())
+			for k := 0; k < 1+g.pick(4) && len(b) > 0; k++ {
+				pos := g.pick(len(b))
+				switch g.pick(5) {
+				case 0:
+					b[pos] ^= byte(1 << uint(g.pick(8)))
+				case 1:
+					b = append(b[:pos], append([]byte{byte(g.pick(256))}, b[pos:]...)...)
+				case 2:
+					b = append(b[:pos], b[pos+1:]...)
+				case 3:
+					end := pos + g.pick(12)
+					if end > len(b) {
+						end = len(b)
+					}
+					b = append(b[:end], append(append([]byte{}, b[pos:end]...), b[end:]...)...)
+				default:
+					alphabet := "<>.\"[]/ \n\t0x"
+					b[pos] = alphabet[g.pick(len(alphabet))]
+				}
+			}
+			text = string(b)
 		default:
 			text = g.plausible()
 		}
 		ev := parseEvent(text)
 		ev["ev"] = "parse"
-		ev["how"] = "soup"
+		ev["how"] = how
 		c.emit(i, ev)
 		c.count("soup." + ev["outcome"].(string))
 		if len(ev["msgs"].([]interface{})) > 0 {
